@@ -81,7 +81,8 @@ structure State where
   user : List Nat
   /-- ghost: descriptors created by the library (dup on marshal, received, `UnixFd::dup`) -/
   lib : List Nat
-  /-- ghost: descriptors whose ownership went to the caller through `take_raw_fd` -/
+  /-- ghost: descriptors whose ownership went to the caller through `take_raw_fd` (and was not given
+      back to a handle with `wrap`) -/
   takenFds : List Nat
   /-- ghost: the `close` calls of `Drop for UnixFdInner`, in order -/
   libClosed : List Nat
@@ -227,8 +228,8 @@ def push (s : State) (b : Nat) (items : List Item) : State × Res :=
         match s1.bodies[b]? with
         | none => ({ s1 with err := true }, .err)
         | some bd1 =>
-          let s2 := { s1 with bodies := s1.bodies.set b
-                        { bd1 with fds := bd1.fds.take bd.fds.length, idx := bd1.idx.take bd.idx.length } }
+          let bd2 : Body := { bd1 with fds := bd1.fds.take bd.fds.length, idx := bd1.idx.take bd.idx.length }
+          let s2 := { s1 with bodies := s1.bodies.set b bd2 }
           (dropRefs s2 (bd1.fds.drop bd.fds.length), .err)
 
 /-- `MarshalledMessageBody::reset` -/
@@ -393,7 +394,8 @@ def wrap (s : State) (r : Nat) : State × Res :=
   match s.raws[r]? with
   | some d =>
     if d ∈ s.user then
-      let (s1, c) := newCell { s with user := s.user.filter (· != d) } d
+      let (s1, c) := newCell { s with user := s.user.filter (· != d),
+                                      takenFds := s.takenFds.filter (· != d) } d
       ({ s1 with handles := s1.handles ++ [some c] }, .ok)
     else (s, .illegal)
   | none => (s, .illegal)
